@@ -206,6 +206,60 @@ def r27_interp(repo, sink, tier="quick"):
     sink.floor("R27", "order types", total, 4 * 20)
 
 
+class _AffineError(Exception):
+    pass
+
+
+def _affine_type(v):
+    """Affine-space typing: payloads V(i) are points, their differences vectors, time
+    ratios and numbers scalars.  point + vector -> point; scalar * vector -> vector;
+    scalar * point and point + point are ill-typed."""
+    if isinstance(v, (int, float)):
+        return "S"
+    if isinstance(v, Sym):
+        if v.op == "V":
+            return "P"
+        if v.op in ("add", "sub"):
+            a, b = _affine_type(v.args[0]), _affine_type(v.args[1])
+            if v.op == "add":
+                if {a, b} == {"P", "V"}:
+                    return "P"
+                if a == b == "V":
+                    return "V"
+                if a == b == "S":
+                    return "S"
+                raise _AffineError(f"sum of a {_tn(a)} and a {_tn(b)}")
+            if a == b == "P":
+                return "V"
+            if a == "P" and b == "V":
+                return "P"
+            if a == b and a in ("V", "S"):
+                return a
+            raise _AffineError(f"difference of a {_tn(a)} and a {_tn(b)}")
+        if v.op == "mul":
+            a, b = _affine_type(v.args[0]), _affine_type(v.args[1])
+            if "P" in (a, b):
+                raise _AffineError("a factor is multiplied with a payload itself, not with a difference of payloads")
+            if a == b == "S":
+                return "S"
+            if {a, b} == {"S", "V"}:
+                return "V"
+            raise _AffineError(f"product of a {_tn(a)} and a {_tn(b)}")
+        if v.op == "div":
+            a, b = _affine_type(v.args[0]), _affine_type(v.args[1])
+            if b != "S" or a == "P":
+                raise _AffineError(f"quotient of a {_tn(a)} by a {_tn(b)}")
+            return a
+        if v.op == "neg":
+            return _affine_type(v.args[0])
+        return "S"
+    return "S"
+
+
+def _tn(t):
+    return {"P": "payload", "V": "payload difference", "S": "scalar"}[t]
+
+
 def _fresh(o):
     n = Obj(cls=o.cls, label=o.label, markers=o.markers)
     n.fields = {k: (list(v) if isinstance(v, list) else dict(v) if isinstance(v, dict) else v) for k, v in o.fields.items()}
@@ -232,7 +286,17 @@ def _judge_interp(kind, exp, decs, okind, val, n, pos):
     if exp[0] == "raise":
         return f"returns {val!r} for a request outside the buffered range (extrapolation), expected {exp[1]}"
     if exp[0] == "val":
-        return None if _poly_eq(val, exp[1]) else f"returns {val!r}, definition gives {exp[1]!r}"
+        if not _poly_eq(val, exp[1]):
+            return f"returns {val!r}, definition gives {exp[1]!r}"
+        if kind == "LinearTime":
+            try:
+                t = _affine_type(val)
+                if t != "P":
+                    return f"the interpolant has affine type {t}, a payload (point) is required"
+            except _AffineError as exc:
+                return (f"the interpolant is computed as {val!r}: {exc}. Payloads may carry offset units (degC): only differences of "
+                        "payloads may be scaled, otherwise pint raises OffsetUnitCalculusError although the formula is algebraically equal")
+        return None
     if exp[0] == "step":
         _, dt, vlo, vhi = exp
         d = None
@@ -636,3 +700,82 @@ class _PushInterp(BufInterp):
         if name == "np.may_share_memory":
             return False
         return super().ext_call(name, args, kwargs, node)
+
+
+# =========================================================================== R27c
+def r27c_constructors(repo, sink):
+    """Adapter constructors keep the configured values, in particular falsy ones (a step
+    position 0.0, 0 steps, a zero delay): `x or default` silently replaces them."""
+    from ..absbase import FinamInterp
+
+    class _I(FinamInterp):
+        def __init__(self, repo, cls):
+            super().__init__(repo)
+            self.cls_under_test = cls
+
+        def call_func(self, clo, args, kwargs, node):
+            f = clo.func
+            if getattr(f, "name", "") == "__init__" and getattr(f, "cls", None) is not None and f.cls is not self.cls_under_test \
+                    and not self.repo.is_subclass(f.cls, self.repo.cls("TimeCachingAdapter")) \
+                    and f.cls.name not in ("TimeIntegrationAdapter", "TimeDelayAdapter"):
+                return None
+            return super().call_func(clo, args, kwargs, node)
+
+        def call_hook(self, fv, args, kwargs, node, mod):
+            if isinstance(fv, Closure) and getattr(fv.func, "name", "") == "is_timedelta":
+                return True
+            return super().call_hook(fv, args, kwargs, node, mod)
+
+        def decide(self, cond, node):
+            if cond == Sym("configured"):
+                return True
+            return super().decide(cond, node)
+
+        def ext_call(self, name, args, kwargs, node):
+            if name.endswith("timedelta"):
+                return Sym("timedelta", tuple(sorted(kwargs.items())), tuple(args))
+            return super().ext_call(name, args, kwargs, node)
+
+        def builtin(self, name, args, kwargs, node):
+            if name == "bool":
+                return bool(args[0]) if isinstance(args[0], (int, float, bool)) else True
+            return super().builtin(name, args, kwargs, node)
+
+    table = [
+        ("StepTime", "step", ["step"]), ("AvgOverTime", "step", ["_step"]), ("SumOverTime", "step", ["_step"]),
+        ("SumOverTime", "per_time", ["_per_time"]), ("DelayFixed", "delay", ["delay"]), ("DelayToPull", "steps", ["steps"]),
+        ("DelayToPull", "additional_delay", ["additional_delay"]), ("Scale", "scale", ["scale"]), ("SumOverTime", "initial_interval", ["_initial_interval"]),
+    ]
+    n = 0
+    for cname, param, attrs in table:
+        if not repo.has_cls(cname):
+            continue
+        c = repo.cls(cname)
+        init = c.methods.get("__init__")
+        if init is None or param not in init.params:
+            continue
+        n += 1
+        worst = None
+        for val in (0.0, 0, False, None if param == "step" and cname != "StepTime" else Sym("configured"), Sym("configured")):
+            if val is None and cname == "StepTime":
+                continue
+            o = Obj(cls=c, label=cname)
+            o.fields["logger"] = Logger(label="logger")
+            it = _I(repo, c)
+            try:
+                it.run(init, [], {param: val}, self_obj=o)
+            except (Raised, Undecided, AnalysisError) as exc:
+                if worst is None:
+                    sink.unknown("R27", f"constructor:{cname}.{param}", init, f"constructor outside vocabulary: {exc}")
+                    worst = "skip"
+                break
+            got = next((o.fields[a] for a in attrs if a in o.fields), "<unset>")
+            same = (got is val) or (got == val and type(got) is type(val))
+            if not same:
+                worst = worst or f"{cname}({param}={val!r}) stores {got!r}"
+        if worst == "skip":
+            continue
+        sink.check(worst is None, "R27", f"constructor:{cname}.{param}", init,
+                   ok=f"{cname} keeps the configured `{param}` (also falsy values)",
+                   bad=(worst or "") + f": a legal configuration value of `{param}` is silently replaced")
+    sink.floor("R27", "adapter constructor parameters", n, 7)
